@@ -562,7 +562,7 @@ func openStore(dir string, options StoreOptions) (*Store, error) {
 	histograms["CompactUsecs"] =
 		ghistogram.NewNamedHistogram("CompactUsecs", 10, 4, 4)
 
-	if len(fnames) <= 0 {
+	newEmptyStore := func(nextFNameSeq int64) *Store {
 		emptyFooter := &Footer{
 			refs:         1,
 			ss:           &segmentStack{options: &options.CollectionOptions},
@@ -574,11 +574,15 @@ func openStore(dir string, options StoreOptions) (*Store, error) {
 			options:      &options,
 			refs:         1,
 			footer:       emptyFooter,
-			nextFNameSeq: 1,
+			nextFNameSeq: nextFNameSeq,
 			histograms:   histograms,
 			fileRefMap:   make(map[string]*FileRef),
 			abortCh:      make(chan struct{}),
-		}, nil
+		}
+	}
+
+	if len(fnames) <= 0 {
+		return newEmptyStore(1), nil
 	}
 
 	sort.Strings(fnames)
@@ -586,6 +590,10 @@ func openStore(dir string, options StoreOptions) (*Store, error) {
 		options.CollectionOptions.Log("store: openStore,"+
 			" files found: %q", fnames)
 	}
+
+	// onlyUncommitted stays true while every file looked at so far is
+	// a data file without any footer.
+	onlyUncommitted := true
 
 	for i := len(fnames) - 1; i >= 0; i-- {
 		var flag int
@@ -600,6 +608,7 @@ func openStore(dir string, options StoreOptions) (*Store, error) {
 
 		file, err := options.OpenFile(path.Join(dir, fnames[i]), flag, perm)
 		if err != nil {
+			onlyUncommitted = false
 			continue
 		}
 
@@ -620,6 +629,9 @@ func openStore(dir string, options StoreOptions) (*Store, error) {
 		footer, err := ReadFooter(&options, file) // Footer owns file on success.
 		if err != nil {
 			file.Close()
+			if err != ErrNoValidFooter {
+				onlyUncommitted = false
+			}
 			continue
 		}
 
@@ -647,6 +659,20 @@ func openStore(dir string, options StoreOptions) (*Store, error) {
 			fileRefMap:   make(map[string]*FileRef),
 			abortCh:      make(chan struct{}),
 		}, nil
+	}
+
+	if onlyUncommitted {
+		// None of the files ever received a footer (e.g. the process
+		// or machine stopped during the very first persistence), so
+		// nothing was ever committed: this is an empty store.
+		if !options.KeepFiles && !options.CollectionOptions.ReadOnly {
+			err := removeFiles(dir, fnames)
+			if err != nil {
+				return nil, err
+			}
+		}
+
+		return newEmptyStore(maxFNameSeq + 1), nil
 	}
 
 	return nil, fmt.Errorf("store: could not open/parse"+
